@@ -19,8 +19,21 @@ META = {
             "sequences are compared against an independent reference store with R7RS meanings (property oracle). "
             "map, for-each and equal? are covered by model and oracle correspondence only (no theorem yet).",
     "note": "Trusted: Lean kernel; axioms propext, Classical.choice, Quot.sound; the hand-written model Marwood.Store is "
-            "tied to the Rust code by differential testing only; prelude.scm definitions are transcribed by hand and "
-            "their source text is hash-checked on every run; allocation is modelled as append (no free list/GC: C03); "
+            "tied to the Rust code by differential testing only; prelude.scm definitions are transcribed by hand; the "
+            "library procedures of prelude.scm are REGENERATED on every run as data (translate/prelude_procs.py -> "
+            "Gen.PreludeProcs.procs) and the theorems prelude_source_* / prelude_sources_agree prove that each modelled "
+            "procedure (caar list length memq memv member assq assv assoc any? map1 map for-each) is still the top-level "
+            "form its model was transcribed from (Store.Prelude.sourceOf, committed) — a changed library procedure "
+            "breaks a proof, the op-sequence correspondence exhibits the behavioural difference; moreover the theorems "
+            "prelude_image_* prove, for every fuel, store and argument, that each hand-written model (length, mem x3, "
+            "ass x3, anyNull, map1, map/mapAll, for-each/forEachAll, list; caar = car.car) EQUALS the image of the "
+            "regenerated definition under the explicitly defined interpretation function of "
+            "lean/Marwood/Store/PreludeInterp.lean (parseDef: Datum -> first-order syntax; evalE/interp: operands left to "
+            "right, test true unless #f, lexical operator resolution, one fuel unit per call of a Scheme-defined "
+            "procedure) — so the transcription itself is no longer trusted; trusted instead: that ~150-line interpreter's "
+            "reading of if/cond/and/or/begin/letrec/apply (cond/and/or are prelude MACROS whose expansion is C01/C17's "
+            "business) and its builtin table `prims`; the whitespace-normalised "
+            "source text is additionally hash-checked on every run (second line of defence, also covers `void`); allocation is modelled as append (no free list/GC: C03); "
             "numbers are exact integers only; circular structures are outside the property and never generated; "
             "readings of R7RS 'it is an error' cases are listed at the top of lean/Marwood/Spec/Store.lean "
             "(lazy traversal for memq..assoc/list-tail/list-ref/map, non-pair alist entries skipped, list-tail needs "
@@ -39,7 +52,14 @@ makeVector_err vectorCopy_ok vectorCopy_all vectorCopy_err_range vectorCopyBang_
 vectorCopyBang_ok_whole vectorCopyBang_err cons_ok car_ok cdr_ok car_err cdr_err car_cons setCar_ok setCdr_ok
 setCar_err setCdr_err setCar_visible reverse_ok reverse_err list_ok vectorToList_ok listToVector_ok listToVector_err
 length_ok length_err isList_spec listTail_ok listTail_err listTail_err_index listRef_ok listRef_err eqv_key
-eqv_symbol mem_spec ass_spec append_ok append_err""".split()]
+eqv_symbol mem_spec ass_spec append_ok append_err
+prelude_source_caar prelude_source_list prelude_source_length prelude_source_memq prelude_source_memv
+prelude_source_member prelude_source_assq prelude_source_assv prelude_source_assoc prelude_source_anyP
+prelude_source_map1 prelude_source_map prelude_source_forEach prelude_sources_agree prelude_modelled_defined
+prelude_mem_family
+prelude_image_length prelude_image_memq prelude_image_memv prelude_image_member prelude_image_assq
+prelude_image_assv prelude_image_assoc prelude_image_anyNull prelude_image_map1 prelude_image_map
+prelude_image_forEach prelude_image_caar prelude_image_list""".split()]
 
 # sha256[:16] of the whitespace-normalised text of the prelude definitions transcribed in
 # lean/Marwood/Store/Prelude.lean (and ListOps.list for `list`)
@@ -140,4 +160,7 @@ def run(ctx):
              "operations and a final state in which some pair/vector is referenced twice; distinct by request text",
         trusted_extra=["reference store Marwood.Spec (RStore) used as property oracle: independent of the heap model, "
                        "its reading of R7RS is documented in lean/Marwood/Spec/Store.lean",
-                       "prelude.scm transcription checked by source hash, not regenerated"])
+                       "prelude.scm library procedures: regenerated as data and proved equal to the recorded transcription "
+                       "source (Lemmas/PreludeAgree.lean), and every model proved equal to the image of the regenerated "
+                       "definition under Store/PreludeInterp.lean (Lemmas/PreludeInterp*.lean); trusted: that "
+                       "interpretation function; source hash kept as a second check"])
